@@ -90,6 +90,7 @@ def run_shard(shard, out_base):
     if shard.get("kind") == "threads":
         run_threads(shard, mon, S, table)
         return mon.result(out_base)
+    early: list = []  # mutants met early in this process, presented again at its end
     for cc in shard["countries"]:
         spec = table[cc]
         rng = env.rng("C03", cc)
@@ -134,6 +135,8 @@ def run_shard(shard, out_base):
                     mon.ev()
                     mon.distinct(t)
                     mon.tally("subst")
+                    if len(early) < 400 and (len(early) < 40 or mon.evaluations % 97 == 0):
+                        early.append((b, t))
                     if o.ok:
                         mon.viol("substitution_accepted:" + ("checkdigits" if p < 4 else k), {"base": b, "mutant": t, "pos": p}, "rejected", o.brief())
                     elif not judge.is_lib_exc(o.exc):
@@ -179,6 +182,16 @@ def run_shard(shard, out_base):
                     if o.ok:
                         mon.viol("transposition_accepted", {"base": b, "mutant": t, "pos": p}, "rejected", o.brief())
         mon.sample({"base": bases[0], "mutant": bases[0][:5] + ("1" if bases[0][5] != "1" else "2") + bases[0][6:]})
+    # tens of thousands of distinct texts later: the early mutants are still typing errors, their bases still valid
+    n_between = mon.tallies.get("subst", 0)
+    for b, t in early:
+        o, ob = observe(S.IBAN, t), observe(S.IBAN, b)
+        mon.ev()
+        mon.tally("early_mutants_presented_again")
+        if o.ok:
+            mon.viol("substitution_accepted:when_presented_again_later", {"base": b, "mutant": t, "distinct_texts_in_between": n_between}, "rejected", o.brief())
+        if not ob.ok:
+            mon.viol("base_rejected:when_presented_again_later", {"iban": b, "distinct_texts_in_between": n_between}, "ACCEPT", ob.brief())
     return mon.result(out_base)
 
 
